@@ -4,8 +4,12 @@ from .. import forest as FO
 
 ID = "C11"
 LEAN_MODULE = "Ucfg.Props.C11"
-CORRESPONDENCE = "Forest model ~ histories over several configs observed through VerifFingerprint (build tag verif) and Path/Parent/FlattenedKeys/CompareConfigs"
-TRUSTED_BASE = ["Lean 4 kernel", "the fingerprint hook verif_fingerprint.go (add-only, build tag verif)", "correspondence harness"]
+CORRESPONDENCE = ("Model/Forest.lean (heap of nodes with stored contexts: cpy, appendCpy, setAt, delAt, SetValue, attach, storedPath) composed by "
+                  "Driver/ForestDrv.lean ~ histories over several configs dumped after every step through VerifFingerprint (build tag verif): node "
+                  "identities up to renaming, stored parents and names, values, Path(), Parent()")
+TRUSTED_BASE = ["Lean 4 kernel", "the fingerprint hook verif_fingerprint.go (add-only, build tag verif)",
+                "Driver/ForestDrv.lean composes the proved primitives into Merge/NewFrom/Set*/Remove/SetChild (glue, compared on every history up to the first step it does not cover: references, nulls meeting objects, dotted source keys, missing intermediate nodes)",
+                "addresses as identities (the worker switches the garbage collector off for the duration of a history)", "correspondence harness"]
 ASSUMPTIONS = []
 RULE = ("the C10 histories with references and with read operations mixed in: Unpack (generic and typed), getters, Has, CountField, Child, "
         "FlattenedKeys, diff.CompareConfigs, and configs used as merge sources. Oracle: the fingerprint of every config is identical before "
